@@ -273,7 +273,7 @@ impl Peer {
 
     pub fn send(&self, p: &R) -> Vec<u8> {
         let b = refcodec::encode(self.ver, p).expect("peer packet encodes");
-        self.app.log(Ev::PeerSent(crate::map::brief(p)));
+        self.app.log_peer(p);
         if let Some(io) = &self.io {
             io.write(&b);
         }
@@ -282,6 +282,14 @@ impl Peer {
 
     pub fn send_bytes(&self, b: &[u8], label: &str) {
         self.app.log(Ev::PeerSent(format!("raw {label} {}B", b.len())));
+        self.app.raw_writes.set(true);
+        if let Some(io) = &self.io {
+            io.write(b);
+        }
+    }
+
+    /// write (a fragment of) a packet that was logged with `App::log_peer`
+    pub fn write_part(&self, b: &[u8]) {
         if let Some(io) = &self.io {
             io.write(b);
         }
@@ -289,6 +297,7 @@ impl Peer {
 
     /// write without logging (fragments of something already logged)
     pub fn write_quiet(&self, b: &[u8]) {
+        self.app.raw_writes.set(true);
         if let Some(io) = &self.io {
             io.write(b);
         }
@@ -429,6 +438,10 @@ impl Conn {
         // handlers gated after the close
         if self.app.open_all(Outcome::Ok) > 0 {
             self.settle().await;
+        }
+        // scenario-independent monitors over the complete boundary log of this connection
+        if !self.app.judged.replace(true) {
+            crate::universal::judge(self);
         }
     }
 
